@@ -321,20 +321,32 @@ fn parse_declaration(s: &mut Stream) -> Result<()> {
         // Will trigger the InvalidString error, which is what we want.
         return s.skip_string(b"version");
     }
-    let _ = parse_attribute(s)?;
+    parse_pseudo_attribute(s, "version")?;
     consume_spaces(s)?;
 
     if s.starts_with(b"encoding") {
-        let _ = parse_attribute(s)?;
+        parse_pseudo_attribute(s, "encoding")?;
         consume_spaces(s)?;
     }
 
     if s.starts_with(b"standalone") {
-        let _ = parse_attribute(s)?;
+        parse_pseudo_attribute(s, "standalone")?;
     }
 
     s.skip_spaces();
     s.skip_string(b"?>")?;
+
+    Ok(())
+}
+
+// A pseudo-attribute of the XML declaration. The name must be exactly `name`
+// and not merely start with it.
+fn parse_pseudo_attribute(s: &mut Stream, name: &'static str) -> Result<()> {
+    let start = s.pos();
+    let (prefix, local, _) = parse_attribute(s)?;
+    if !prefix.is_empty() || local != name {
+        return Err(Error::InvalidString(name, s.gen_text_pos_from(start)));
+    }
 
     Ok(())
 }
